@@ -2826,6 +2826,7 @@ def kepler_equation(eccentricity, mean_anomaly):
     :returns: A tuple with two Angle objects: Eccentric and true anomalies
     :rtype: tuple
     :raises: TypeError if input values are of wrong type.
+    :raises: ValueError if the eccentricity is outside the [0, 1) range.
 
     >>> eccentricity = 0.1
     >>> mean_anomaly = Angle(5.0)
@@ -2873,6 +2874,8 @@ def kepler_equation(eccentricity, mean_anomaly):
         and isinstance(mean_anomaly, Angle)
     ):
         raise TypeError("Invalid input types")
+    if eccentricity < 0.0 or eccentricity >= 1.0:
+        raise ValueError("Eccentricity must be in the [0, 1) range")
     # Let's implement the third method (from Roger Sinnot), page 206
     # First, compute the eccentric anomaly
     m = mean_anomaly.rad()
